@@ -153,3 +153,127 @@ Proof.
 Qed.
 
 End PatProofs.
+
+(* ---- positions: the annotated type as a tree ---------------------------------------------------- *)
+Section PosInd.
+  Variable P : pos -> Prop.
+  Hypothesis HLeaf : forall k c, P (PLeaf k c).
+  Hypothesis HOther : P POther.
+  Hypothesis HSeq : forall e, P e -> P (PSeq e).
+  Hypothesis HMap : forall key e, (forall kp, key = Some kp -> P kp) -> P e -> P (PMap key e).
+  Hypothesis HTup : forall es, Forall P es -> P (PTup es).
+  Hypothesis HRec : forall fs, Forall (fun x => P (snd x)) fs -> P (PRec fs).
+  Hypothesis HOpt : forall e, P e -> P (POpt e).
+  Hypothesis HUnion : forall e, P e -> P (PUnion e).
+
+  Fixpoint pos_induction (p : pos) : P p :=
+    match p with
+    | PLeaf k c => HLeaf k c
+    | POther => HOther
+    | PSeq e => HSeq e (pos_induction e)
+    | PMap key e =>
+        HMap key e
+             (match key as k0 return (forall kp, k0 = Some kp -> P kp) with
+              | Some k1 => fun kp H => match H in (_ = y) return (match y with Some z => P z | None => True end) with
+                                       | eq_refl => pos_induction k1 end
+              | None => fun kp H => match H in (_ = y) return (match y with Some z => P z | None => True end) with
+                                    | eq_refl => I end
+              end)
+             (pos_induction e)
+    | PTup es => HTup es ((fix go (l : list pos) : Forall P l :=
+                             match l with [] => Forall_nil _ | e :: r => Forall_cons e (pos_induction e) (go r) end) es)
+    | PRec fs => HRec fs ((fix go (l : list (pstr * pos)) : Forall (fun x => P (snd x)) l :=
+                             match l with [] => Forall_nil _ | e :: r => Forall_cons e (pos_induction (snd e)) (go r) end) fs)
+    | POpt e => HOpt e (pos_induction e)
+    | PUnion e => HUnion e (pos_induction e)
+    end.
+End PosInd.
+
+Lemma lift_err {X Y} (h : X -> Y) r e : lift h r = inr e -> r = inr e.
+Proof. destruct r; cbn; congruence. Qed.
+
+Lemma seq_map_err g l ps : seq_map g l = inr (TParse ps) -> exists x, In x l /\ g x = inr (TParse ps).
+Proof.
+  induction l as [|x r IH]; cbn; [discriminate|].
+  destruct (g x) eqn:E.
+  - intro H. apply lift_err in H. destruct (IH H) as (y & Hy & Hg). exists y. split; [now right|auto].
+  - intro H. inversion H. subst. exists x. split; [now left|auto].
+Qed.
+
+Lemma seq_map_all g (h : jv -> tv) l : (forall x, In x l -> g x = inl (h x)) -> seq_map g l = inl (map h l).
+Proof.
+  induction l as [|x r IH]; cbn; auto. intro H. rewrite (H x) by now left.
+  rewrite IH; [reflexivity|]. intros; apply H; now right.
+Qed.
+
+Lemma tup_map_err gs l ps : tup_map gs l = inr (TParse ps) -> exists g x, In g gs /\ g x = inr (TParse ps).
+Proof.
+  revert l. induction gs as [|g gs IH]; intros [|x r]; cbn; try discriminate.
+  destruct (g x) eqn:E.
+  - intro H. apply lift_err in H. destruct (IH _ H) as (g' & y & Hg & Hy). exists g', y. split; [now right|auto].
+  - intro H. inversion H. subst. exists g, x. split; [now left|auto].
+Qed.
+
+Lemma obj_map_err gk g l ps : obj_map gk g l = inr (TParse ps) ->
+  (exists k, gk k = inr (TParse ps)) \/ (exists x, g x = inr (TParse ps)).
+Proof.
+  induction l as [|[k x] r IH]; cbn; [discriminate|].
+  destruct (gk k) eqn:Ek.
+  - destruct (g x) eqn:Ex.
+    + intro H. apply lift_err in H. auto.
+    + intro H. inversion H. subst. right. now exists x.
+  - intro H. inversion H. subst. left. now exists k.
+Qed.
+
+Lemma field_loader_in gs k g : field_loader gs k = Some g -> exists n, In (n, g) gs.
+Proof.
+  induction gs as [|[n g'] r IH]; cbn; [discriminate|].
+  destruct (pstr_eqb k n).
+  - intro H. inversion H. subst. exists n. now left.
+  - intro H. destruct (IH H) as (m & Hm). exists m. now right.
+Qed.
+
+Lemma rec_map_err gs l ps : rec_map gs l = inr (TParse ps) -> exists n g x, In (n, g) gs /\ g x = inr (TParse ps).
+Proof.
+  induction l as [|[k x] r IH]; cbn; [discriminate|].
+  destruct (field_loader gs k) as [g|] eqn:Ef; [|discriminate].
+  destruct (g x) eqn:Ex.
+  - intro H. apply lift_err in H. auto.
+  - intro H. inversion H. subst. destruct (field_loader_in _ _ _ Ef) as (n & Hn). now exists n, g, x.
+Qed.
+
+(* an error naming patterns can only come from the element loader at some date/time leaf *)
+Lemma load_pos_error_origin f p : forall j ps,
+  load_pos f p j = inr (TParse ps) -> exists k c s, f k c s = ParseErr ps.
+Proof.
+  induction p as [k c| |e IH|key e IHk IH|es IH|fs IH|e IH|e IH] using pos_induction; intros j ps; cbn.
+  - destruct j; try discriminate. destruct (f k c s) eqn:E; cbn; intro H; inversion H. subst. now exists k, c, s.
+  - discriminate.
+  - destruct j; try discriminate. intro H. apply lift_err in H.
+    destruct (seq_map_err _ _ _ H) as (x & _ & Hx). eauto.
+  - destruct j; try discriminate. intro H. apply lift_err in H.
+    destruct (obj_map_err _ _ _ _ H) as [(k & Hk)|(x & Hx)]; [|eauto].
+    destruct key as [kp|]; [|discriminate]. exact (IHk kp eq_refl _ _ Hk).
+  - destruct j; try discriminate. intro H. apply lift_err in H.
+    destruct (tup_map_err _ _ _ H) as (g & x & Hg & Hx).
+    apply in_map_iff in Hg as (e & <- & He). rewrite Forall_forall in IH. exact (IH e He _ _ Hx).
+  - destruct j; try discriminate. intro H. apply lift_err in H.
+    destruct (rec_map_err _ _ _ H) as (n & g & x & Hg & Hx).
+    apply in_map_iff in Hg as ((n' & e) & E & He). inversion E. subst.
+    rewrite Forall_forall in IH. exact (IH (n, e) He _ _ Hx).
+  - destruct j; try discriminate; intro H; eauto.
+  - destruct j; try discriminate; intro H; eauto.
+Qed.
+
+(* sequences (List, variadic tuple): element-wise *)
+Lemma load_pos_seq_all f e (h : jv -> tv) l :
+  (forall x, In x l -> load_pos f e x = inl (h x)) -> load_pos f (PSeq e) (JArr l) = inl (TArr (map h l)).
+Proof. intro H. cbn. now rewrite (seq_map_all _ h l H). Qed.
+
+(* a leaf below Optional / Union / in a sequence is loaded by the element loader of ITS kind and class *)
+Lemma load_pos_leaf f k c s : load_pos f (PLeaf k c) (JStr s) = of_outcome (f k c s).
+Proof. reflexivity. Qed.
+Lemma load_pos_opt f e j : j <> JNull -> load_pos f (POpt e) j = load_pos f e j.
+Proof. destruct j; cbn; congruence. Qed.
+Lemma load_pos_union_str f e s : load_pos f (PUnion e) (JStr s) = load_pos f e (JStr s).
+Proof. reflexivity. Qed.
